@@ -215,3 +215,10 @@ Print Assumptions C16_build_order_independent.
 Theorem C16_build_deterministic_model : forall c o1 o2, tx_build c = Ok o1 -> tx_build c = Ok o2 -> o1 = o2.
 Proof. intros c o1 o2 H1 H2. rewrite H1 in H2. now injection H2. Qed.
 Print Assumptions C16_build_deterministic_model.
+
+(* ---------- 5. the judges of the correspondence run accept the model's own observations ---------- *)
+Theorem C16_judge_accepts_model :
+  (forall k i h o, set_case k i h = Ok o -> judge_set k i h (o_items o) (o_bools o) = true) /\
+  (forall h, Forall op_ok h -> judge_fields (ws_fields (ws_run h)) = true).
+Proof. split; [exact judge_set_accepts_model | exact judge_fields_accepts_model]. Qed.
+Print Assumptions C16_judge_accepts_model.
